@@ -71,7 +71,7 @@ type Isolated struct {
 	Deaths int
 }
 
-var frameRe = regexp.MustCompile(`github\.com/voedger/voedger/[\w/\-]+\.(?:\(\*?\w+\)\.)?[\w.]+`)
+var frameRe = regexp.MustCompile(`github\.com/(?:voedger/voedger|alecthomas/participle/v2)[\w/\-]*\.(?:\(\*?\w+\)\.)?[\w.]+`)
 
 // headBuffer keeps the beginning of the child's stderr (a Go fatal error prints its reason first)
 type headBuffer struct {
